@@ -37,7 +37,15 @@ pub struct Plan {
     /// offered as inputs; what it admits to its pool must still be valid against the ledger it has
     #[serde(default)]
     pub joined_mid_chain: bool,
+    /// "" = the preloaded-world family; "staking" = a self-started producer with social staking on (its
+    /// staking transaction goes into every block THROUGH the pool, so it holds reservations like any other)
+    #[serde(default)]
+    pub family: String,
+    #[serde(default)]
+    pub stake: u64,
 }
+
+pub const STAKING_KINDS: &[&str] = &["tx", "tx", "tx", "tx-conflict", "tx-dup", "stage", "bundle", "bundle", "bundle", "issuance-in-pool", "producer-tx"];
 
 pub const KINDS: &[&str] = &[
     "tx", "tx", "tx", "tx-2in", "tx-conflict", "tx-conflict-2nd-input", "tx-dup", "stage", "bundle", "bundle", "peer-confirm", "peer-partial", "peer-conflict", "peer-side-conflict", "peer-invalid", "peer-plain", "reorg", "own-invalid", "tx-spent-input",
@@ -46,12 +54,23 @@ pub const KINDS: &[&str] = &[
 fn gen(seed: u64, tier: Tier) -> Plan {
     let mut rng = Rng::new(seed);
     let n = rng.range(4, if tier == Tier::Quick { 40 } else { 120 });
-    Plan {
+    let mut p = Plan {
         seed,
         depth: rng.range(2, 5) as usize,
         ops: (0..n).map(|_| Op { k: rng.pick(KINDS).to_string(), a: rng.below(32), b: rng.below(32) }).collect(),
         joined_mid_chain: rng.chance(1, 5),
+        family: String::new(),
+        stake: 0,
+    };
+    // a separate stream decides the family, so that the plans of the first family stay what they were
+    let mut fr = Rng::new(mix(seed, 1414));
+    if fr.chance(1, 6) {
+        p.family = "staking".to_string();
+        p.stake = [50_000u64, 2_000_000, 40_000_000][fr.below(3) as usize];
+        let n = fr.range(4, if tier == Tier::Quick { 24 } else { 60 });
+        p.ops = (0..n).map(|_| Op { k: fr.pick(STAKING_KINDS).to_string(), a: fr.below(32), b: fr.below(32) }).collect();
     }
+    p
 }
 
 fn in_keys(t: &Transaction) -> Vec<UtxoKey> {
@@ -65,8 +84,8 @@ impl Scenario for C14 {
     fn meta(&self) -> Meta {
         Meta {
             level: "exploration",
-            rule: "run = one real node (consensus processor, timer-driven bundling, real mempool) preloaded with 2-5 blocks (one run in five: from block 2 or 3 on only - a node that joined mid-chain and has not loaded the whole ledger; inputs are then drawn from the blocks it holds); 4..40/120 operations from {valid payment (half of them routed to the node with a fee, so that they carry routing work), two-input payment, conflicting spend of a pooled input, two-input transaction whose second input conflicts with a pooled one, duplicate, transaction whose input a held block already spent, staging tick (moves received transactions into the pool without a block), bundling tick, peer block confirming a pooled transaction, peer block spending one of the two inputs of a pooled transaction, peer block conflicting with a pooled transaction, sibling of the tip (never the longest chain) spending a reserved input, invalid peer block, plain peer block, two-block peer fork that reorganises away the last block, a block under the node's own key carrying a good payment and a transaction that re-spends an already spent output (refused; the node hands the transactions of a refused own block back to its pool)}. After every operation: no two pooled transactions share a value-carrying input; every pooled transaction validates against the current ledger; reserved inputs (utxo_map) are exactly the pooled transactions' value-carrying inputs; cached routing work equals the sum over pooled transactions; a bundling tick either produced a block that the node adopted and whose transactions left the pool, or left the pool unchanged; and a fresh valid payment from an unspent output that no pooled transaction spends enters the pool (tried on a scratch basis: the probe transaction is removed again). distinct_nontrivial = distinct op-sequence digests with >= 1 pool/ledger conflict event.",
-            real: &["Mempool::add_transaction_if_validates/add_transaction/bundle_block/can_bundle_block/delete_transactions", "ConsensusThread::process_event/process_timer_event/bundle_block", "Blockchain::add_blocks_from_mempool/remove_block_transactions/add_block_failure", "Block::create"],
+            rule: "run = one real node (consensus processor, timer-driven bundling, real mempool) preloaded with 2-5 blocks (one run in five: from block 2 or 3 on only - a node that joined mid-chain and has not loaded the whole ledger; inputs are then drawn from the blocks it holds); 4..40/120 operations from {valid payment (half of them routed to the node with a fee, so that they carry routing work), two-input payment, conflicting spend of a pooled input, two-input transaction whose second input conflicts with a pooled one, duplicate, transaction whose input a held block already spent, staging tick (moves received transactions into the pool without a block), bundling tick, peer block confirming a pooled transaction, peer block spending one of the two inputs of a pooled transaction, peer block conflicting with a pooled transaction, sibling of the tip (never the longest chain) spending a reserved input, invalid peer block, plain peer block, two-block peer fork that reorganises away the last block, a block under the node's own key carrying a good payment and a transaction that re-spends an already spent output (refused; the node hands the transactions of a refused own block back to its pool)}. After every operation: no two pooled transactions share a value-carrying input; every pooled transaction validates against the current ledger; reserved inputs (utxo_map) are exactly the pooled transactions' value-carrying inputs; cached routing work equals the sum over pooled transactions; a bundling tick either produced a block that the node adopted and whose transactions left the pool, or left the pool unchanged; and a fresh valid payment from an unspent output that no pooled transaction spends enters the pool (tried on a scratch basis: the probe transaction is removed again). One run in six is the staking family instead: a producer that starts its own chain from an issuance file with social staking on (stake 5e4/2e6/4e7, period 2-4; real MiningThread; the staking transaction enters every block through the pool) under 4..24/60 operations from {routed payment, payment by the producer's own key, conflicting spend, duplicate, staging tick, bundling tick, Issuance-typed transaction offered to the pool (makes the next bundled block one the node refuses)}; the same oracle after every operation, the probe also on the producer's own outputs. distinct_nontrivial = distinct op-sequence digests with >= 1 pool/ledger conflict event (staking family: or >= 1 refused staked block).",
+            real: &["Mempool::add_transaction_if_validates/add_transaction/bundle_block/can_bundle_block/delete_transactions", "ConsensusThread::process_event/process_timer_event/bundle_block", "Blockchain::add_blocks_from_mempool/remove_block_transactions/add_block_failure", "Block::create", "staking family: Blockchain genesis from issuance file, Wallet stake selection, MiningThread"],
             stubs: &["no network (blocks and transactions are injected at the consensus processor's channel)", "SimClock", "universe builder for peer blocks"],
             assumptions: &["event-granularity scheduling", "the active probe removes its transaction (and reservation) again"],
         }
@@ -82,6 +101,9 @@ impl Scenario for C14 {
     }
     fn execute(&self, plan: &Value) -> RunResult {
         let plan: Plan = serde_json::from_value(plan.clone()).expect("plan");
+        if plan.family == "staking" {
+            return staking_family(&plan);
+        }
         let mut r = RunResult::default();
         let mut w = World::new(plan.seed, Params::default());
         let mut rng = Rng::new(mix(plan.seed, 14));
@@ -569,4 +591,282 @@ impl Scenario for C14 {
         }
         out.into_iter().map(|p| serde_json::to_value(p).unwrap()).collect()
     }
+}
+
+/// The staking family: a producer that starts its own chain from an issuance file with social staking on and
+/// bundles by timer (real MiningThread for the tickets). Its staking transaction enters every block through the
+/// pool. Users' payments, conflicts and duplicates arrive at the consensus processor; an Issuance-typed
+/// transaction in the pool makes the next bundled block one the node refuses (known finding of C01: the pool
+/// admits it), so that the failed-block-addition path runs with a staking transaction in the refused block.
+/// The pool oracle of the first family is evaluated after every operation.
+fn staking_family(plan: &Plan) -> RunResult {
+    use crate::simcfg::SimConfig;
+    use crate::simio::JournalOp;
+    use saito_core::core::defs::PrintForLog;
+    let mut r = RunResult::default();
+    r.fault("social_staking_enabled", 1);
+    let pk = derive_key(plan.seed, 0);
+    let users: Vec<Key> = (1..=3).map(|i| derive_key(plan.seed, i)).collect();
+    let mut cfg = SimConfig::new(100, 1000);
+    cfg.consensus.prune_after_blocks = 8;
+    cfg.consensus.default_social_stake = plan.stake;
+    cfg.consensus.default_social_stake_period = 2 + plan.seed % 3;
+    let mut sim = Sim::new(mix(plan.seed, 142), TS0);
+    let mut opts = NodeOpts::default();
+    opts.produce_blocks_by_timer = true;
+    opts.mining_enabled = true;
+    opts.mining_iterations = 8;
+    let n = sim.add_node(&pk, &cfg, &opts);
+    {
+        let mut txt = String::new();
+        for (ui, u) in users.iter().enumerate() {
+            for s in 0..5u64 {
+                txt.push_str(&format!("{}\t{}\tNormal\n", 1_000_000 * (s + 1) + ui as u64 + 30_000, u.pk.to_base58()));
+            }
+        }
+        for s in 0..8u64 {
+            txt.push_str(&format!("{}\t{}\tNormal\n", plan.stake * 3 + 30_000 + s, pk.pk.to_base58()));
+        }
+        let mut d = sim.nodes[n].disk.lock().unwrap();
+        d.apply(&JournalOp::Write { path: "./data/issuance/issuance".to_string(), data: txt.into_bytes() });
+    }
+    sim.init_node(n, true);
+    let start = sim.now();
+    let tick_all = |sim: &mut Sim, ms: u64| {
+        sim.advance(ms);
+        sim.tick(n, P_ROUTING);
+        sim.tick(n, P_MINING);
+        sim.tick(n, P_CONSENSUS);
+    };
+    tick_all(&mut sim, 1100);
+    sim.settle_without_fetches(20_000);
+    tick_all(&mut sim, 2100);
+    sim.settle_without_fetches(20_000);
+    let mut trace = Digest::new();
+    let mut conflicts = 0u64;
+    let mut tagc = 0u64;
+    let mut last_sent: Option<Transaction> = None;
+    let mut refused_seen = 0u64;
+    for (oi, op) in plan.ops.iter().enumerate() {
+        trace.str(&op.k).u64(op.a).u64(op.b);
+        // the ledger of the node's longest chain, rebuilt from its blocks (histories are short)
+        let ledger_of = |sim: &Sim| -> Option<RefLedger> {
+            let bc = block_on(sim.nodes[n].blockchain_lock.read());
+            let mut hs = vec![];
+            let mut cur = bc.get_latest_block_hash();
+            while cur != [0; 32] {
+                let b = bc.get_block(&cur)?;
+                hs.push(cur);
+                cur = b.previous_block_hash;
+            }
+            hs.reverse();
+            let mut l = RefLedger::default();
+            for h in hs {
+                let b = bc.get_block(&h)?;
+                if b.transactions.is_empty() && b.id > 1 {
+                    return None;
+                }
+                l.apply(&rec_from_block(b, true, "own"));
+            }
+            Some(l)
+        };
+        let ledger = match ledger_of(&sim) {
+            Some(l) => l,
+            None => break,
+        };
+        let tip = sim.nodes[n].tip();
+        let pool_before: Vec<Transaction> = {
+            let mp = block_on(sim.nodes[n].mempool_lock.read());
+            mp.transactions.values().cloned().collect()
+        };
+        let staged: Vec<Transaction> = sim.nodes[n].consensus.txs_for_mempool.clone();
+        let busy: Vec<UtxoKey> = pool_before.iter().chain(staged.iter()).flat_map(in_keys).collect();
+        let mut bundle_expected = false;
+        match op.k.as_str() {
+            "tx" | "producer-tx" => {
+                let u = if op.k == "producer-tx" { pk.clone() } else { users[(op.a % 3) as usize].clone() };
+                let free: Vec<SlipRef> = ledger.unspent_of(&u.pk).into_iter().filter(|s| !busy.contains(&s.key())).collect();
+                if !free.is_empty() {
+                    let s = free[op.b as usize % free.len()].clone();
+                    let fee = (op.b * 977) % (s.amount / 4 + 1);
+                    tagc += 1;
+                    let mut t = make_tx(&u, &[s.clone()], &[(users[((op.a + 1) % 3) as usize].pk, (s.amount - fee) / 2), (u.pk, s.amount - fee - (s.amount - fee) / 2)], sim.now() + tagc, &tagc.to_le_bytes());
+                    if op.k == "tx" {
+                        t.add_hop(&u.sk, &u.pk, &pk.pk);
+                    }
+                    t.generate(&pk.pk, 0, 0);
+                    last_sent = Some(t.clone());
+                    sim.nodes[n].q_consensus.push_back(ConsensusEvent::NewTransaction { transaction: t });
+                    if op.k == "producer-tx" {
+                        r.probe("producer_spends_own_output_by_hand");
+                    }
+                }
+            }
+            "tx-conflict" => {
+                if let Some(victim) = pool_before.iter().chain(staged.iter()).find(|t| t.transaction_type == TransactionType::Normal && !in_keys(t).is_empty()) {
+                    let sr = SlipRef::from_slip(victim.from.iter().find(|s| s.amount > 0).unwrap());
+                    if let Some(owner) = users.iter().chain(std::iter::once(&pk)).find(|k| k.pk == sr.pk).cloned() {
+                        tagc += 1;
+                        let mut t = make_tx(&owner, &[sr.clone()], &[(owner.pk, sr.amount)], sim.now() + tagc, &tagc.to_le_bytes());
+                        t.generate(&pk.pk, 0, 0);
+                        sim.nodes[n].q_consensus.push_back(ConsensusEvent::NewTransaction { transaction: t });
+                        conflicts += 1;
+                        r.fault("conflicting_tx", 1);
+                    }
+                }
+            }
+            "tx-dup" => {
+                if let Some(t) = last_sent.clone() {
+                    sim.nodes[n].q_consensus.push_back(ConsensusEvent::NewTransaction { transaction: t });
+                    r.fault("duplicate_tx", 1);
+                }
+            }
+            "issuance-in-pool" => {
+                tagc += 1;
+                let mut t = make_tx(&users[0], &[], &[(users[0].pk, 1_000 + op.a)], sim.now() + tagc, &tagc.to_le_bytes());
+                t.transaction_type = TransactionType::Issuance;
+                t.sign(&users[0].sk);
+                t.generate(&pk.pk, 0, 0);
+                sim.nodes[n].q_consensus.push_back(ConsensusEvent::NewTransaction { transaction: t });
+                r.fault("issuance_typed_tx_offered_to_pool", 1);
+            }
+            "stage" => {
+                sim.advance(1001);
+                sim.tick(n, P_CONSENSUS);
+            }
+            "bundle" => {
+                bundle_expected = true;
+                tick_all(&mut sim, 7_000);
+            }
+            _ => {}
+        }
+        let quiet = sim.settle_without_fetches(20_000);
+        sim.nodes[n].out.lock().unwrap().msgs.clear();
+        if let Some((_, what, p)) = sim.panics.first() {
+            r.violate(format!("C14|panic|staking|{}|{}|{}", op.k, what, p.site()), format!("staking family, op {} ({}): {} panicked: {} ({}:{})", oi, op.k, what, p.msg.chars().take(140).collect::<String>(), p.file, p.line));
+            break;
+        }
+        if !quiet {
+            r.violate("C14|stall", format!("staking family, op {} ({}): no quiescence", oi, op.k));
+            break;
+        }
+        let tip2 = sim.nodes[n].tip();
+        {
+            let bc = block_on(sim.nodes[n].blockchain_lock.read());
+            let mp = block_on(sim.nodes[n].mempool_lock.read());
+            let mut pool: Vec<Transaction> = mp.transactions.values().cloned().collect();
+            pool.sort_by(|a, b| a.signature.cmp(&b.signature));
+            let had_issuance = pool_before.iter().any(|t| t.transaction_type == TransactionType::Issuance);
+            if bundle_expected && had_issuance && tip2.1 == tip.1 {
+                refused_seen += 1;
+                r.fault("own_staked_block_refused", 1);
+            }
+            let mut seen: Vec<UtxoKey> = vec![];
+            for t in &pool {
+                for k in in_keys(t) {
+                    if seen.contains(&k) {
+                        r.violate("C14|pool|two-txs-spend-same-output", format!("staking family, op {} ({}): two pooled transactions spend the same output", oi, op.k));
+                    }
+                    seen.push(k);
+                }
+            }
+            for t in pool.iter().filter(|t| t.transaction_type == TransactionType::Normal) {
+                if !t.validate(&bc.utxoset, &bc, true) {
+                    r.violate(format!("C14|pool|invalid-tx-after|{}", op.k), format!("staking family, op {} ({}): a pooled payment no longer validates against the ledger at tip {}", oi, op.k, tip2.0));
+                    break;
+                }
+            }
+            let all_in: Vec<UtxoKey> = pool.iter().flat_map(|t| t.from.iter().map(|s| s.utxoset_key)).collect();
+            for k in mp.utxo_map.keys() {
+                if !all_in.contains(k) {
+                    r.violate(format!("C14|pool|stale-reservation-after|{}", op.k), format!("staking family, op {} ({}): an input is still reserved in the pool although no pooled transaction spends it", oi, op.k));
+                    break;
+                }
+            }
+            for t in pool.iter().filter(|t| t.transaction_type == TransactionType::Normal) {
+                if let Some(sl) = t.from.iter().find(|s| s.amount > 0 && !mp.utxo_map.contains_key(&s.utxoset_key)) {
+                    r.violate(format!("C14|pool|reservation-missing-after|{}", op.k), format!("staking family, op {} ({}): a pooled transaction's input (block {}, amount {}) is not reserved in the pool any more", oi, op.k, sl.block_id, sl.amount));
+                    break;
+                }
+            }
+            let work: u128 = pool.iter().map(|t| t.total_work_for_me as u128).sum();
+            if mp.get_routing_work_available() as u128 != work {
+                r.violate("C14|pool|routing-work-cache", format!("staking family, op {} ({}): cached routing work {} but pooled transactions carry {}", oi, op.k, mp.get_routing_work_available(), work));
+            }
+            if bundle_expected && tip2.1 != tip.1 {
+                if let Some(blk) = bc.get_block(&tip2.1) {
+                    for t in blk.transactions.iter().filter(|t| t.transaction_type == TransactionType::Normal) {
+                        if mp.transactions.contains_key(&t.signature) {
+                            r.violate("C14|bundle|bundled-tx-still-pooled", format!("staking family, op {}: a bundled transaction is still in the pool", oi));
+                        }
+                    }
+                    if blk.transactions.iter().any(|t| t.transaction_type == TransactionType::BlockStake && t.from.iter().any(|s| s.amount > 0)) {
+                        r.probe("staked_block_adopted");
+                    }
+                }
+            } else if bundle_expected && !had_issuance {
+                for t in pool_before.iter().filter(|t| t.transaction_type == TransactionType::Normal) {
+                    if !mp.transactions.contains_key(&t.signature) && t.validate(&bc.utxoset, &bc, true) {
+                        r.violate("C14|bundle|tx-lost-without-block", format!("staking family, op {}: bundling produced no block but a valid pooled transaction disappeared", oi));
+                        break;
+                    }
+                }
+            }
+        }
+        if !r.violations.is_empty() {
+            break;
+        }
+        // active probe: an unspent output (a user's or the producer's own) that nobody in the pool spends can be spent
+        if let Some(l2) = ledger_of(&sim) {
+            let (pooled_in, staged_in): (Vec<UtxoKey>, Vec<UtxoKey>) = {
+                let mp = block_on(sim.nodes[n].mempool_lock.read());
+                (mp.transactions.values().flat_map(in_keys).collect(), sim.nodes[n].consensus.txs_for_mempool.iter().flat_map(in_keys).collect())
+            };
+            let who: Vec<Key> = if op.a % 2 == 0 { vec![pk.clone()] } else { users.clone() };
+            let cand = who.iter().flat_map(|u| l2.unspent_of(&u.pk)).find(|s| !pooled_in.contains(&s.key()) && !staged_in.contains(&s.key()));
+            if let Some(s) = cand {
+                let owner = who.iter().find(|k| k.pk == s.pk).unwrap().clone();
+                tagc += 1;
+                let mut t = make_tx(&owner, &[s.clone()], &[(owner.pk, s.amount)], sim.now() + tagc, &tagc.to_le_bytes());
+                t.generate(&pk.pk, 0, 0);
+                let sig = t.signature;
+                let accepted = {
+                    let bc = block_on(sim.nodes[n].blockchain_lock.read());
+                    let mut mp = block_on(sim.nodes[n].mempool_lock.write());
+                    let flag = mp.new_tx_added;
+                    block_on(mp.add_transaction_if_validates(t.clone(), &bc));
+                    let ok = mp.transactions.contains_key(&sig);
+                    if ok {
+                        mp.transactions.remove(&sig);
+                        for k in in_keys(&t) {
+                            mp.utxo_map.remove(&k);
+                        }
+                        mp.delete_transactions(&vec![]);
+                        mp.new_tx_added = flag;
+                    }
+                    ok
+                };
+                if !accepted {
+                    r.violate(format!("C14|funds-locked-after|{}", op.k), format!("staking family, op {} ({}): output {}-{}-{} ({} nolan) is unspent and no pooled transaction spends it, but a fresh valid transaction spending it is refused by the pool", oi, op.k, s.block_id, s.tx_ordinal, s.slip_index, s.amount));
+                    break;
+                }
+                r.probe("active_probe_accepted");
+            }
+        }
+        r.steps += 1;
+    }
+    r.sim_time_ms = sim.now() - start;
+    if conflicts > 0 || refused_seen > 0 {
+        let mut d = Digest::new();
+        d.str("staking");
+        for o in &plan.ops {
+            d.str(&o.k).u64(o.a % 4).u64(o.b % 4);
+        }
+        r.nontrivial.push(d.get());
+    }
+    r.schedule_hash = sim.schedule_digest.get();
+    trace.bytes(&sim.nodes[n].tip().1);
+    r.state_hash = trace.get();
+    r.trace_hash = trace.get();
+    r
 }
